@@ -6,9 +6,70 @@ from vlib import *
 from props.btree_common import *
 
 
+BT_CFG = ("CONSTANTS LeafMax = %d\n InnerMax = %d\n Keys = {%s}\n MaxMult = %d\n Dup = %s\n Mutation = \"%s\"\nSPECIFICATION Spec\nINVARIANT TreeInv\nINVARIANT Results\nVIEW View\n%sCHECK_DEADLOCK FALSE\n")
+# branches of the transcribed case analysis that the bounded model must reach (vacuity guard)
+NEED_TAGS = ["split_leaf", "split_inner", "split_inner_left_smaller", "split_inner_special", "split_key_is_new_key", "insert_into_new_leaf", "insert_into_old_leaf",
+             "insert_into_new_inner", "insert_into_old_inner", "new_root", "root_collapse", "last_leaf_freed", "lastkey_to_parent", "lastkey_upwards", "lastkey_to_grandparent",
+             "lastkey_further_upwards", "fixmerge_current_child", "fixmerge_next_child", "leaf:case1_merge_left", "leaf:case1_merge_right", "leaf:case2_shift_left",
+             "leaf:case2_merge_left", "leaf:case3_shift_right", "leaf:case3_merge_right", "leaf:case4_shift_left", "leaf:case4_shift_right", "leaf:case5_shift_left",
+             "leaf:case5_shift_right", "inner:case1_merge_left", "inner:case1_merge_right", "inner:case5_shift_left", "inner:case5_shift_right"]
+
+
+def keyset(n):
+    return ", ".join(str(i) for i in range(1, n + 1))
+
+
+def model_check_btree(ctx, quick):
+    """BTreeI: the transcribed insert / erase algorithm, all histories over a bounded key set; clauses of C02 as invariants"""
+    runs = [(4, 4, 4, 3, "TRUE"), (4, 5, 4, 3, "TRUE"), (5, 4, 4, 3, "TRUE"), (4, 4, 10, 1, "FALSE")] if quick else \
+           [(4, 4, 4, 4, "TRUE"), (4, 5, 4, 4, "TRUE"), (5, 4, 4, 4, "TRUE"), (5, 5, 5, 4, "TRUE"), (6, 4, 5, 4, "TRUE"), (4, 4, 13, 1, "FALSE"), (5, 4, 12, 1, "FALSE"), (4, 4, 5, 4, "TRUE")]
+    for (ls, is_, nk, mm, dup) in runs:
+        tlc_mc(ctx, SD, "BTreeI", "mc_btree_run.cfg", workers=NCPU, coverage=False, timeout=6000, xmx="24g", deque=True,
+               cfg_text=BT_CFG % (ls, is_, keyset(nk), mm, dup, "none", ""))
+    # which branches were reached (4/4 slots, 4 keys x multiplicity 4: three levels)
+    notes, st = tlc_gen(ctx, SD, "BTreeI", "mc_btree_note.cfg", workers=4, timeout=3000, cfg_text=BT_CFG % (4, 4, keyset(4), 4, "TRUE", "none", "CONSTRAINT Note\n"))
+    tags, heights = {}, {}
+    for n in notes:
+        for tg in n.get("how", []):
+            tags[tg] = tags.get(tg, 0) + 1
+        heights[n.get("height")] = heights.get(n.get("height"), 0) + 1
+    ctx.cov["btreei_branch_states"] = dict(sorted(tags.items()))
+    ctx.cov["btreei_root_level_states"] = {str(k): v for k, v in sorted(heights.items())}
+    missing = [tg for tg in NEED_TAGS if tg not in tags]
+    if missing:
+        raise InternalError("vacuity guard: BTreeI never takes the branches %s in the bounded model" % missing)
+    # negative self-tests: seeded mistakes of the transcription must violate the invariants
+    for mut in ("no_lastkey_to_grandparent", "no_prev_fix", "no_free_on_merge"):
+        r = tlc_mc(ctx, SD, "BTreeI", "mc_btree_neg.cfg", workers=NCPU, coverage=False, timeout=3000, xmx="16g", deque=True, expect_ok=False,
+                   cfg_text=BT_CFG % (4, 4, keyset(4), 4, "TRUE", mut, ""))
+        if r["ok"] or "Invariant TreeInv is violated" not in r["out"]:
+            raise InternalError("negative self-test: BTreeI with Mutation=%s does not violate TreeInv" % mut)
+    ctx.cov["negative_self_tests"] = 3
+
+
+def ie_history(rng, n, nkeys):
+    """insert / erase_one / erase(key) / clear / range-insert histories for the implementation-level comparison"""
+    out, mode = [], "fill"
+    for _ in range(n):
+        k = rng.randint(1, nkeys)
+        r = rng.random()
+        if r < 0.01:
+            out.append("C 1")
+        elif mode == "fill":
+            out.append(rng.choice(("I 1 %d" % k, "I 1 %d" % k, "I 1 %d" % k, "H 1 %d %d" % (rng.randint(0, 9), k), "R 1 3 %d %d %d" % (k, rng.randint(1, nkeys), k))))
+            if rng.random() < 0.04:
+                mode = "drain"
+        else:
+            out.append(rng.choice(("O 1 %d" % k, "O 1 %d" % k, "E 1 %d" % k)))
+            if rng.random() < 0.05:
+                mode = "fill"
+    return " ".join(out)
+
+
 def run(ctx):
     quick = ctx.tier == "quick"
     rng = random.Random(ctx.seed)
+    model_check_btree(ctx, quick)
     ctx.cov["rule"] = ("cases = (history, flavour, configuration) as for C01 (TLC transition cover, TLC fill / drain walks, seeded long histories; 4 flavours x 10 configurations with leaf "
                        "and inner capacities 4..16 chosen independently, int and tracked heap-owning elements); after every mutating call on every configuration the driver reads the "
                        "tree through the btree_friend seam and logs leaf depths, fill of every node, separator / max-below / min-right triples, both leaf-chain walks, stats vs. counted "
@@ -63,5 +124,35 @@ def run(ctx):
     validate_traces(ctx, SD, "Trace_BTreeShape", "Trace_BTreeShape.cfg", tr, classify, shards=NCPU, max_rejects=8, timeout=3000)
     if not ctx.violations and (not depth or max(depth) < 2):
         raise InternalError("vacuity guard: no recorded tree reached three levels")
+    # implementation level: the node structure after every insert / erase, compared with what BTreeI computes (set and multiset, ascending configurations)
+    ie = [ie_history(rng, rng.choice((40, 120, 300)), rng.choice((6, 12, 30))) for _ in range(60 if quick else 1500)]
+    tri = ctx.path("bti.ndjson")
+    run_driver_sharded(ctx, exe, ie, tri, what="drv_btree(ie)", extra_args=["1", "01", "023589"], header="P")
+    groups, cur = {}, None
+    for ln in read_text(tri).split("\n"):
+        if not ln:
+            continue
+        if ln.startswith('{"e":"reset"'):
+            e = jl(ln)
+            cur = (e.get("ls"), e.get("is"), e.get("multi"))
+        if cur is not None:
+            groups.setdefault(cur, []).append(ln)
+    ctx.cov["ilevel_groups"] = len(groups)
+    jobs = []
+    for (ls, is_, multi), evs in sorted(groups.items(), key=str):
+        gf = ctx.path("bti_%s_%s_%s.ndjson" % (ls, is_, "multi" if multi else "unique"))
+        open(gf, "w").write("\n".join(evs) + "\n")
+
+        def classify_i(ex, at, ls=ls, is_=is_, multi=multi):
+            e = jl(ex[min(at, len(ex) - 1)])
+            return ("btree/ilevel/%s" % ("multiset" if multi else "set"),
+                    "btree_%s (leaf %s / inner %s slots): after %s the node structure differs from the one BTreeI computes for the same history (event %s)" %
+                    ("multiset" if multi else "set", ls, is_, e.get("after", e.get("op")), e.get("e")))
+        jobs.append((gf, classify_i))
+    import concurrent.futures as cf
+    with cf.ThreadPoolExecutor(max_workers=len(jobs) or 1) as pool:
+        futs = [pool.submit(validate_traces, ctx, SD, "Trace_BTreeI", "Trace_BTreeI.cfg", gf, cl, 4, 2, 3000, "reset", None, (SD, "Trace_BTreeShape", "Trace_BTreeShape.cfg")) for gf, cl in jobs]
+        for f in futs:
+            f.result()
     ctx.assumptions += ["node storage is observed through the Allocator template argument (a counting allocator that poisons released blocks) and the TLX_BTREE_FRIENDS seam",
                         "element life-cycle: every slot of a live node holds exactly one live element instance (nodes construct all slots); AddressSanitizer build is the monitor for accesses to released storage"]
